@@ -433,6 +433,23 @@ impl Check for C11 {
                 cases.push(error_case(tmpl.replace('@', big), "bound or index far outside the sequence"));
             }
         }
+        for a in -1i64..=2 {
+            for b in a - 1..=a + 3 {
+                for i in -1i64..=(b - a).max(0) + 1 {
+                    for form in ["print((A .. B)[I])\n", "r := A .. B\nprint(r[I])\n", "print((A .. B)[I:])\n", "print((A .. B)[:I])\n", "print([(A .. B)..][I])\n", "lo := A\nhi := B\nprint((lo .. hi)[I])\n", "print(((A .. B) + [])[I])\n"] {
+                        let src = format!("print(\"pre\")\n{}", form.replace('A', &a.to_string()).replace('B', &b.to_string()).replace('I', &i.to_string()));
+                        let r = crate::refm::eval::run(&src, 100_000);
+                        if r.is_ok() {
+                            cases.push(defined_case(src, String::from_utf8_lossy(&r.stdout).to_string(), "an index applied directly to a range expression"));
+                        } else {
+                            let mut e = error_case(src, "an index applied directly to a range expression");
+                            e.meta = format!("X{}\u{1}{}", String::from_utf8_lossy(&r.stdout), "an index applied directly to a range expression (fails)");
+                            cases.push(e);
+                        }
+                    }
+                }
+            }
+        }
         for p in super::evalorder::SELF_READ_PROGRAMS {
             let r = crate::refm::eval::run(p, 100_000);
             if r.is_ok() {
